@@ -5,6 +5,7 @@ import json, os, subprocess, sys, tempfile, xml.etree.ElementTree as ET
 base = json.load(open('/root/.vp/BASELINE.json'))
 fd, xml = tempfile.mkstemp(suffix='.xml', dir='/dev/shm'); os.close(fd)
 env = dict(os.environ); env.pop('LEUVENMAPMATCHING_VERIF', None)
+tmpd = tempfile.mkdtemp(prefix='baseline-', dir='/dev/shm'); env['TMPDIR'] = tmpd  # tests write /tmp/map.sqlite: keep runs apart
 subprocess.run(['/venv/bin/python', '-m', 'pytest', '-q', '-p', 'no:cacheprovider', '--timeout=900',
                 '--continue-on-collection-errors', '--junitxml=' + xml], cwd=os.environ.get('BASELINE_REPO', '/repo'), env=env,
                stdout=subprocess.DEVNULL, stderr=subprocess.DEVNULL)
@@ -13,6 +14,7 @@ for tc in ET.parse(xml).getroot().iter('testcase'):
     if not any(ch.tag in ('failure', 'error', 'skipped') for ch in tc):
         passed.add(f"{tc.get('classname')}::{tc.get('name')}")
 os.unlink(xml)
+import shutil; shutil.rmtree(tmpd, ignore_errors=True)
 missing = [t for t in base['stable_pass'] if t not in passed]
 print(f"baseline: {len(base['stable_pass']) - len(missing)}/{len(base['stable_pass'])} stable tests pass")
 for t in missing:
